@@ -383,6 +383,29 @@ pub fn vclock_child(base: u64) {
             }
         }
     }
+    // an honest issue -> present (key binding, iat = this instant) -> verify round trip at this instant:
+    // reported as a token that expires two hours from "now" (so the parent's rule expects Ok)
+    for alg in ALL_ALGS {
+        for fmt in FMTS {
+            let claims = json!({"iss": "https://issuer.example/A", "exp": now + 7200, "iat": now, "a": [1, 2], "b": {"c": "d"}});
+            let strat = crate::gen::gen_strategy(&mut Rng(5), &claims, crate::gen::StratKind::AllLevels);
+            let mut issuer = api::new_issuer(alg, 0, true);
+            let res = match api::issue(&mut issuer, &claims, &strat, Some((Alg::EdDSA, 0)), true, fmt) {
+                Outcome::Ok(sd) => match api::holder_new(&sd, fmt) {
+                    Outcome::Ok(mut h) => {
+                        let kb = api::KbArgs { nonce: "n".into(), aud: "a".into(), alg: Alg::EdDSA, key_idx: 0, explicit_alg: true };
+                        match api::present(&mut h, &json!({"a": [true, false], "b": {"c": true}}), Some(&kb)) {
+                            Outcome::Ok(p) => api::verify(&p, &Resolver::Fixed(alg, 0), Some(("a", "n")), fmt).out.class(),
+                            _ => "err",
+                        }
+                    }
+                    _ => "err",
+                },
+                _ => "err",
+            };
+            rows.push(json!({"alg": alg.name(), "fmt": fmt.name(), "exp": now + 7200, "nbf": Value::Null, "result": res, "honest_round_trip": true}));
+        }
+    }
     println!("{}", json!({"vnow": now, "rows": rows}));
 }
 
@@ -402,7 +425,15 @@ fn vclock_leg(ctx: &Ctx, rep: &mut Report) {
     let base = api::now();
     let mut checked = 0u64;
     let mut instants = vec![];
-    for off in [-(10 * YEAR as i64), -(YEAR as i64), -86400, 0, 86400, YEAR as i64, 10 * YEAR as i64] {
+    // besides the far instants: offsets that put the virtual clock within the same few seconds of an
+    // exact minute, hour and day boundary (the child takes well under a second)
+    let to_boundary = |m: u64| -> i64 { (m - base % m) as i64 };
+    let mut offsets: Vec<i64> = vec![-(10 * YEAR as i64), -(YEAR as i64), -86400, 0, 86400, YEAR as i64, 10 * YEAR as i64];
+    for m in [60u64, 3600, 86_400] {
+        offsets.push(to_boundary(m));
+        offsets.push(to_boundary(m) - 1);
+    }
+    for off in offsets {
         let out = std::process::Command::new(&exe)
             .args(["C09-vclock", &base.to_string()])
             .env("LD_PRELOAD", &shim)
